@@ -7,5 +7,6 @@ pub mod model;
 #[macro_use]
 pub mod codecs;
 pub mod gen;
+pub mod kmers;
 pub mod oracle;
 pub mod props;
